@@ -510,6 +510,21 @@ func rulesC10(c *Ctx) {
 			}
 		}
 		c.Pin("peer-I/O call sites with a context", n, 10)
+		// the converse for the fan-out to *other* sessions: notifySessions (list-changed, resources/updated to legacy
+		// sessions) sends under a context built from context.Background — never from a caller's context, whose request id
+		// would route the notification into the recipient's unrelated exchange with the same id
+		ns := c.Fn(pM, "", "notifySessions")
+		m := 0
+		for _, call := range ns.AllCalls(ns.Body, true) {
+			fn := ns.Callee(call)
+			if fn == nil || !sinks[fn.Origin()] || len(call.Args) == 0 {
+				continue
+			}
+			m++
+			root, chain := ctxRoot(ns, call.Args[0], 4)
+			c.Check(root == "context.Background", "fan-out-context:notifySessions:"+fn.Name(), ns, call, "the fan-out context derives from context.Background (%s)", chain)
+		}
+		c.Pin("fan-out sends in notifySessions", m, 1)
 	})
 	c.Import("R-C10-8", "with a shared in-memory event store, a message stored for one session is never filed under another: lists are reached only through the table keyed by session id, then stream id (no remembered last stream; every session's standalone stream has the same id)", "C20", "R-C20-8", nil)
 }
